@@ -52,11 +52,15 @@ CLAIMED = {
         text="Closed theorems over tables regenerated from integrations/latex.py on every run: every port direction (input, output, "
              "through) has a section, input parameters have a section, and -- given the generated fallback flag -- no non-empty name "
              "makes the name formatting raise; without the fallback exactly the names with an empty part around the first underscore "
-             "raise. The streams render every identifier up to length 3 over {x,_,1} in every role, and random hierarchies with their "
+             "raise. Completeness (LatexWalkFacts, over the traversal and section assembly TRANSLATED from latex.py: _walk, "
+             "_format_resources, _get_resources_lines, the SECTIONS getters): _walk yields every routine of the hierarchy exactly "
+             "once, every resource of every routine has a line (the root's under its bare name, a subroutine's under its name) and "
+             "there are exactly as many lines as resources, the root's resources are listed whatever the flag, every port has a line "
+             "in the section of its direction, every input parameter an entry. The streams render every identifier up to length 3 over {x,_,1} in every role, and random hierarchies with their "
              "compiled forms, in all four modes (with/without subroutine resources, paged/unpaged) and compare the number of entries "
-             "per section with the document. Partial: sympy's latex() on expressions is an oracle; entry typography is not modelled.",
+             "per section with the document AND with the translated assembly evaluated in Coq (tie). Partial: sympy's latex() on expressions is an oracle; entry typography is not modelled.",
         design_ref="DESIGN.md section 5 C18",
-        note="Trusted: Coq kernel; translator (SECTIONS table, port getters, fallback guard; fail-closed); sympy latex.",
+        note="Trusted: Coq kernel; translator (SECTIONS table, port getters, fallback guard, _walk and the resource / port / parameter line assembly from fixed statement shapes; fail-closed); sympy latex.",
         technique="Coq theorems over translator-generated rendering tables + exhaustive short-name and hierarchy rendering stream",
     ),
     "C13": dict(
